@@ -58,3 +58,16 @@ def zip_cases(base):
     p = ["load", b0, 1.5 * s, 0.5 * s, "P", 1., True]
     sg = ["sgen", b0, 0.8 * s, -0.2 * s, 1., True]
     return [[z], [i], [m2], [z, p], [z, sg], [z, i], [m2, p]]
+
+
+def build(case):
+    """na.build plus the composite deviation ["multi", [dev, dev, ...]] (counts as ONE deviation: a target that only
+    exists as a combination, e.g. a capacitance-free line that also has an open switch)"""
+    net = na.base(case["base"])
+    for d in case.get("devs", ()):
+        if d[0] == "multi":
+            for d2 in d[1]:
+                na.apply_dev(net, d2)
+        else:
+            na.apply_dev(net, d)
+    return net
